@@ -12,6 +12,6 @@ Separate Extraction
   ArrayBucketModel.ab_step ArrayBucketModel.ab_null ArrayBucketModel.rcount ArrayBucketModel.rcap
   ArrayBucketModel.pool_of ArrayBucketModel.fcount_of
   MultiMapModel.step MultiMapModel.st_empty MultiMapModel.traverse MultiMapModel.get_count
-  MultiMapModel.get_key_count MultiMapModel.find MultiMapModel.evals VersionModel.vstep VersionModel.vstep1 VersionModel.vst_empty VersionModel.vmm_fresh VersionModel.vver MultiMapModel.lin_pred MultiMapModel.step1f MultiMapModel.step1
+  MultiMapModel.get_key_count MultiMapModel.find MultiMapModel.evals VersionModel.kver_changes VersionModel.vstep VersionModel.vstep1 VersionModel.vst_empty VersionModel.vmm_fresh VersionModel.vver MultiMapModel.lin_pred MultiMapModel.step1f MultiMapModel.step1
   WrapperModel.w_size WrapperModel.w_count WrapperModel.w_equal_range WrapperModel.w_insert WrapperModel.w_erase_key
   WrapperModel.w_erase_if WrapperModel.w_clear WrapperModel.w_erase_at WrapperModel.w_erase_range WrapperModel.w_eq.
